@@ -53,7 +53,13 @@ inductive COp
   | setStatus (a : Nat) (st : Status)
   | begin (a : Nat) (kill : Bool)
   | xstep (a : Nat)
+  /-- the order in which `terminate` visits the actors on its worklist is the iteration order of a
+  `HashMap` (`children.into_values()`): any rearrangement of the pending list may happen at any time -/
+  | shuffle (a : Nat) (pending : List Nat)
   deriving DecidableEq, Repr
+
+/-- the same elements, in any order and multiplicity -/
+def sameMembers (p q : List Nat) : Bool := p.all (q.contains ·) && q.all (p.contains ·)
 
 /-- what one step does to the tree -/
 inductive TAct
@@ -103,11 +109,16 @@ def cact (g : CState) : COp → TAct
   | .setStatus a st => if a < g.t.n ∧ st ≠ .stopped then .setSt a st else .nop
   | .begin _ _ => .nop
   | .xstep a => (xact g.t a (g.pc a)).1
+  | .shuffle _ _ => .nop
 
 def cpc (g : CState) : COp → Nat → CPc
   | .begin a kill =>
     if a < g.t.n ∧ g.pc a = .idle then upd g.pc a (if kill then .term false [a] none else .pub) else g.pc
   | .xstep a => upd g.pc a (xact g.t a (g.pc a)).2
+  | .shuffle a pend' =>
+    match g.pc a with
+    | .term cl pend cur => if sameMembers pend pend' then upd g.pc a (.term cl pend' cur) else g.pc
+    | _ => g.pc
   | _ => g.pc
 
 def cstep (g : CState) (op : COp) : CState := ⟨applyAct g.t (cact g op), cpc g op⟩
